@@ -44,7 +44,7 @@ def eval_case(case) -> Outcome:
         elif True:
             out.labels.add("nested-site")
         check_site(out, an, case, site_path, site, c)
-    if not root_ok:
+    if not root_ok and () not in S.container_paths(case):
         out.fail("C09.records_missing", "the root zone is not a site")
     return out
 
@@ -209,14 +209,15 @@ def double_pinch_site(draw, tier):
 
 def strategy(tier):
     mx = 8 if tier == "quick" else 12
-    return st.one_of(
+    return G.with_options(st.one_of(
         source_sink_site(tier),
         nested_site(tier),
         double_pinch_site(tier),
+        G.community_problem(),
         G.problem(min_streams=3, max_streams=mx, shape="mixed", multi_zone=True, max_both=2),
         G.problem(min_streams=2, max_streams=mx, multi_zone=True, max_both=2, isothermal_utils=True),
         G.problem(min_streams=2, max_streams=mx, shape="mixed", max_both=2),
-    )
+    ))
 
 
 PARTS = [Part("service", eval_case, {"quick": 1000, "thorough": 25000}, strategy=strategy, min_nontrivial={"quick": 100, "thorough": 2500})]
